@@ -223,7 +223,13 @@ func runC16(c *Ctx) {
 	// ---- openers: functions of LGFunction signature referenced in RunLuaScript
 	var openers []*ssa.Function
 	seenOp := map[*ssa.Function]bool{}
-	for _, b := range run.Blocks {
+	// RunLuaScript and the same-package helpers it calls (the opening of libraries may be extracted)
+	scope := samePkgClosure(p, run)
+	var scopeBlocks []*ssa.BasicBlock
+	for _, f := range scope {
+		scopeBlocks = append(scopeBlocks, f.Blocks...)
+	}
+	for _, b := range scopeBlocks {
 		for _, in := range b.Instrs {
 			for _, op := range in.Operands(nil) {
 				if f, ok := (*op).(*ssa.Function); ok && sigIsLG(f) && !seenOp[f] {
@@ -330,7 +336,7 @@ func runC16(c *Ctx) {
 	}
 	c.Ob("R16.2", "LState#not-shared", run.Pos(), shared == "", "no VM state is kept in a package variable or struct field", shared)
 	prot := false
-	for _, st := range FieldStores([]*ssa.Function{run}, "", "Protect") {
+	for _, st := range FieldStores(scope, "", "Protect") {
 		if v, isC := StoredConst(st); isC && v == "true" {
 			prot = true
 		}
@@ -459,17 +465,32 @@ func runC16(c *Ctx) {
 	for _, fn := range p.FuncsMatching("executeLuaForCanary") {
 		bad := ""
 		nOK := 0
-		for _, ret := range returnsOf(fn) {
-			errRes := ret.Results[len(ret.Results)-1]
-			for _, lf := range Leaves(errRes, ret.Block()) {
-				if t := TermOf(lf.V); t.Op == "const" && t.Name == "nil" {
-					nOK++
-					if !HasFact(lf.Facts, FCmp("==", MCall("gopher-lua.LValue.Type"), MAny())) {
-						bad = "a nil error is returned without the result having been checked to be a table (" + p.Pos(ret.Pos()) + ")"
+		// success returns of fn, or of a same-package helper whose error result fn hands on
+		var scan func(f *ssa.Function, depth int)
+		scan = func(f *ssa.Function, depth int) {
+			for _, ret := range returnsOf(f) {
+				errRes := ret.Results[len(ret.Results)-1]
+				for _, lf := range Leaves(Forwarded(errRes), ret.Block()) {
+					v := Forwarded(lf.V)
+					if t := TermOf(v); t.Op == "const" && t.Name == "nil" {
+						nOK++
+						fs := append(append([]Fact{}, lf.Facts...), FactsAtInstr(ret)...)
+						if !HasFact(fs, FCmp("==", MCall("gopher-lua.LValue.Type"), MAny())) {
+							bad = "a nil error is returned without the result having been checked to be a table (" + p.Pos(ret.Pos()) + ")"
+						}
+						continue
+					}
+					if ex, ok := v.(*ssa.Extract); ok && depth < 2 {
+						if call, ok := ex.Tuple.(*ssa.Call); ok {
+							if h := call.Call.StaticCallee(); h != nil && h.Pkg == fn.Pkg && h.Blocks != nil && ex.Index == h.Signature.Results().Len()-1 {
+								scan(h, depth+1)
+							}
+						}
 					}
 				}
 			}
 		}
+		scan(fn, 0)
 		if nOK == 0 {
 			bad = "no success return recognised"
 		}
